@@ -90,8 +90,11 @@ def make_items(ctx, only=None):
         items[iname] = {'name': iname, 'tool': 'abidw', 'dest': dest, 'template': t, 'collect': collect, 'ref': ref, 'W': ref.res['simf']['objects'][0]['writes']}
     # abilint's other output paths: translation-unit and corpus-group documents, and the --stdin variants
     fx = os.path.join(C.VERIF, 'pool', 'data', 'abixml')
-    for label, doc, extra in (('tu', 'tu-test18.xml', []), ('group', 'group-shapes-tiny.xml', []), ('stdin-corpus', 'fnptr_v0.abi', ['--stdin']),
-                              ('stdin-tu', 'tu-test18.xml', ['--stdin', '--tu'])):
+    fx2 = os.path.join(C.VERIF, 'pool', 'data', 'abixml-extra')     # legal but unusual documents: groups and corpora with nothing in them (one line of output)
+    cases = [('tu', 'tu-test18.xml', []), ('group', 'group-shapes-tiny.xml', []), ('stdin-corpus', 'fnptr_v0.abi', ['--stdin']), ('stdin-tu', 'tu-test18.xml', ['--stdin', '--tu'])]
+    cases += [('extra-' + f[:-4], os.path.join(fx2, f), []) for f in sorted(os.listdir(fx2))]
+    cases += [('stdin-extra-' + f[:-4], os.path.join(fx2, f), ['--stdin']) for f in sorted(os.listdir(fx2)) if 'group' not in f]
+    for label, doc, extra in cases:
         iname = 'abilint/stdout/%s' % label
         if only and iname != only:
             continue
